@@ -660,6 +660,9 @@ func vC04Keys(c *vCtx, maxDocs int) {
 		{"a": "b:c"}, {"a:b": "c"}, {"a": "b"}, {"a:": "b:c"}, {"a\\": ":b"}, {"a\\:b": "c"},
 		{"k=v": "w"}, {"k": "v=w"}, {"x y": "z"}, {"x": "y z"}, {"p|q": "r"}, {"p": "q|r"}, {"n\x00m": "o"}, {"n": "m\x00o"},
 		{"a": "", "a:": ""}, {"": "a:b"}, {"": ""},
+		// values / names at the edges of the code space: the last BMP code points, the first
+		// and a typical supplementary-plane one (4-byte UTF-8 sorts after U+FFFF), invalid UTF-8
+		{"a": "\U0001F600 happy"}, {"a": "\uffff"}, {"a": "\U00010000"}, {"a": "\xff\xfe"}, {"\U0001F600": "c"}, {"a\uffff": "b"},
 	}
 	type fv struct{ f, v string }
 	var pairs []fv
